@@ -55,6 +55,25 @@ type Other struct {
 	C map[string]int
 }
 
+// Holder is registered on its own: the types of its fields (behind a map, a
+// slice, a pointer and an array) must have been registered with it, not on
+// first use inside a Recompose call that other goroutines share.
+type LeafM struct{ V int }
+type LeafS struct{ V int }
+type LeafP struct{ V int }
+type LeafA struct{ V int }
+type Holder struct {
+	ByKey map[string]*LeafM
+	List  []*LeafS
+	Ptr   *LeafP
+	Arr   [1]LeafA
+}
+
+func holderData() map[string]any {
+	return map[string]any{"^": "Holder", "byKey": map[string]any{"k": map[string]any{"v": 1}}, "list": []any{map[string]any{"v": 2}},
+		"ptr": map[string]any{"v": 3}, "arr": []any{map[string]any{"v": 4}}}
+}
+
 func outer() *Outer {
 	return &Outer{Name: "outer-value-with-some-length", In: Inner{X: 7, Y: "y"}, Ptr: &Inner{X: 8}, List: []int{1, 2, 3, 4, 5, 6, 7, 8, 9}}
 }
@@ -102,7 +121,8 @@ func Groups() []*Group {
 		return map[string]any{"a": []any{
 			map[string]any{"x": int64(1), "y": "n"}, map[string]any{"x": int64(2), "y": "p"}, map[string]any{"x": int64(3), "y": "q"}}}
 	}
-	rec := alt.MustNewRecomposer("^", map[any]alt.RecomposeFunc{&Inner{}: nil, &Outer{}: nil, &Other{}: nil})
+	rec := alt.MustNewRecomposer("^", map[any]alt.RecomposeFunc{&Inner{}: nil, &Outer{}: nil, &Other{}: nil, &Holder{}: nil})
+	locExpr := jp.MustParseString("$.a[?(@.x > $.a[0].x)].y")
 	_, _ = alt.Recompose(map[string]any{"x": 1}, &Inner{}) // warm the default recomposer with the types used below
 	_, _ = alt.Recompose(map[string]any{"a": 1.5}, &Other{})
 	return []*Group{
@@ -135,6 +155,18 @@ func Groups() []*Group {
 			}},
 			{"oj.Parse(invalid)", func() (string, []byte) {
 				v, err := oj.Parse([]byte(`{"a":[1,2,`))
+				return mach.Canon(v) + " / " + errText(err), nil
+			}},
+			{"oj.Load(big)", func() (string, []byte) {
+				v, err := oj.Load(strings.NewReader(`{"n":123456789012345678901234567890,"f":0.25}`))
+				return mach.Canon(v) + " / " + errText(err), nil
+			}},
+			{"oj.Load(big,NumConvString)", func() (string, []byte) {
+				v, err := oj.Load(strings.NewReader(`[123456789012345678901234567890]`), ojg.NumConvString)
+				return mach.Canon(v) + " / " + errText(err), nil
+			}},
+			{"oj.Parse(big,NumConvFloat64)", func() (string, []byte) {
+				v, err := oj.Parse([]byte(`[123456789012345678901234567890]`), ojg.NumConvFloat64)
 				return mach.Canon(v) + " / " + errText(err), nil
 			}},
 			{"oj.Load(object)", func() (string, []byte) {
@@ -183,6 +215,18 @@ func Groups() []*Group {
 				v, err := sen.Parse([]byte(`["x" +`))
 				return mach.Canon(v) + " / " + errText(err), nil
 			}},
+			{"sen.ParseReader(big)", func() (string, []byte) {
+				v, err := sen.ParseReader(strings.NewReader(`{n:123456789012345678901234567890 f:0.25}`))
+				return mach.Canon(v) + " / " + errText(err), nil
+			}},
+			{"sen.ParseReader(big,NumConvString)", func() (string, []byte) {
+				v, err := sen.ParseReader(strings.NewReader(`[123456789012345678901234567890]`), ojg.NumConvString)
+				return mach.Canon(v) + " / " + errText(err), nil
+			}},
+			{"sen.Parse(big,NumConvFloat64)", func() (string, []byte) {
+				v, err := sen.Parse([]byte(`[123456789012345678901234567890]`), ojg.NumConvFloat64)
+				return mach.Canon(v) + " / " + errText(err), nil
+			}},
 			{"sen.ParseReader(array)", func() (string, []byte) {
 				v, err := sen.ParseReader(strings.NewReader(`[1 2 {x:y}]`))
 				return mach.Canon(v) + " / " + errText(err), nil
@@ -220,6 +264,10 @@ func Groups() []*Group {
 				v, err := rec.Recompose(map[string]any{"^": "Outer", "name": "n", "in": map[string]any{"x": 1}})
 				return fmt.Sprintf("%+v / %s", v, errText(err)), nil
 			}},
+			{"rec.Recompose(^Holder)", func() (string, []byte) {
+				v, err := rec.Recompose(holderData())
+				return mach.Canon(alt.Decompose(v)) + " / " + errText(err), nil
+			}},
 			{"gen.Node.Simplify", func() (string, []byte) {
 				return mach.Canon(gen.Array{gen.Int(1), gen.Object{"a": gen.String("b")}}.Simplify()), nil
 			}},
@@ -243,8 +291,24 @@ func Groups() []*Group {
 				return fmt.Sprint(sharedScript.Match(map[string]any{"x": int64(2), "y": "p"}), sharedScript.Match(map[string]any{"x": int64(0)})), nil
 			}},
 			{"Filter.Get", func() (string, []byte) { return mach.Canon(append(jp.R().C("a"), sharedFilter).Get(data())), nil }},
+			{"Expr.Locate", func() (string, []byte) { return fmt.Sprint(sharedExpr.Locate(data(), 0), locExpr.Locate(data(), 0)), nil }},
+			{"Expr.Walk", func() (string, []byte) {
+				var out []string
+				locExpr.Walk(data(), func(p jp.Expr, nodes []any) { out = append(out, p.String()+"="+mach.Canon(nodes[len(nodes)-1])) })
+				return strings.Join(out, " "), nil
+			}},
+			{"Expr.Remove", func() (string, []byte) {
+				r, err := jp.MustParseString("$.a[?(@.x > $.a[0].x)]").Remove(data())
+				r2, err2 := append(jp.R().C("a"), sharedFilter).Remove(data())
+				return mach.Canon(r) + " / " + errText(err) + " / " + mach.Canon(r2) + " / " + errText(err2), nil
+			}},
+			{"Expr.Modify", func() (string, []byte) {
+				r, err := sharedExpr.Modify(data(), func(any) (any, bool) { return "m", true })
+				return mach.Canon(r) + " / " + errText(err), nil
+			}},
+			{"Expr.GetLoc", func() (string, []byte) { return mach.Canon(locExpr.Get(data())) + fmt.Sprint(locExpr.Has(data())), nil }},
 		}, Snapshot: func() string {
-			return snap.Dump(sharedExpr) + snap.Dump(sharedScript) + snap.Dump(sharedFilter) + snap.Dump(wild)
+			return snap.Dump(sharedExpr) + snap.Dump(sharedScript) + snap.Dump(sharedFilter) + snap.Dump(wild) + snap.Dump(locExpr)
 		}},
 	}
 }
